@@ -11,21 +11,22 @@
     - [m_alloc_max]: the largest single allocation request ([Vec::with_capacity(n)], [vec![0; n]],
       the growth of [read_to_end]); [m_alloc_sum]: the sum of all requests.  The decoders emit the
       request BEFORE the reads that fill the buffer, as the Rust code does.
-    - the constants are explicit numerals: [open_Al = 71528471767023872],
-      [open_Bl = 280503810850560] (generous, see C07.v).
+    - the constants are explicit numerals: [open_Al = 1224001114112],
+      [open_Bl = 4800000000] (generous, see C07.v).
     - the core facts are the per-box ones: every table box compares its entry count with
       [(size - header) / entry_size] before [Vec::with_capacity(count)], so its requests are at
       most [size] (twice [size] where the in-memory entry is larger than the wire entry), and the
       containers compare [size] with the parent's size, hence with the file length.
     - two codec-configuration fields are NOT compared with the box size before the allocation:
-      the NAL-unit length of avcC (u16: one request of at most 65 535 bytes) and [num_of_arrays] of
-      hvcC (u8: 255 * 32 bytes).  [num_nalus] of an hvcC array (u16, 32 bytes of bookkeeping per
-      unit) IS compared since the fix "check the hvcC nal unit count against the box before
-      allocating": [2 * num_nalus <= end - position], so that request is at most 16 times the
-      bytes left in the box (example [C08_hvcc_count_rejected]; it used to be 2 MiB from a box of
-      34 bytes).  The state-independent bounds [avcc_cost], [hvcc_cost] below are still the crude
-      constants of the field widths; they are what makes [open_Bl] large. *)
-From MP4 Require Import Cost Reader CostLeaf CostLeaf2 CostLeaf3 CostOpen CostSample CostProps.
+      the NAL-unit length of avcC (u16: one request of at most 65 535 bytes, [avcc_cost]) and
+      [num_of_arrays] of hvcC (u8: 255 * 32 bytes).  They are bounded by the constants the field
+      widths allow; avcC's 18 750 000 is what makes [open_Bl] large.
+    - [num_nalus] of an hvcC array (u16, 32 bytes of bookkeeping per unit) IS compared since the fix
+      "check the hvcC nal unit count against the box before allocating":
+      [2 * num_nalus <= end - position], so that request is at most 16 times the bytes left in the
+      box (it used to be 2 MiB from a box of 34 bytes: example [C08_hvcc_count_rejected]), and a
+      whole hvcC box requests at most [17 * size + 8160] bytes ([C08_hvcc_linear]). *)
+From MP4 Require Import Cost Reader CostLeaf CostLeaf2 CostLeaf3 CostLoop CostCont CostHvcc CostOpen CostSample CostProps.
 From MP4 Require Import BoxStts BoxCtts BoxStsc BoxStsz BoxStss BoxStco BoxCo64 BoxElst BoxTrun
      BoxHdlr BoxAvc1 BoxHev1.
 From MP4 Require Track.
@@ -69,11 +70,38 @@ Theorem C08_trun : forall m size, bnd (dec_trun m size) (2 * size + 40) size.
 Proof. exact trun_cost. Qed.
 Theorem C08_hdlr : forall m size, bnd (dec_hdlr m size) (size + 400) size.
 Proof. exact hdlr_cost. Qed.
-(** the codec boxes: constants of the field widths, not of the box size *)
+(** the codec boxes, from ANY position of ANY input: constants of the field widths *)
 Theorem C08_avcc : forall m size, bnd (dec_avcc m size) 18750000 18750000.
 Proof. exact avcc_cost. Qed.
 Theorem C08_hvcc : forall m size, bnd (dec_hvcc m size) hvcc_W hvcc_A.
 Proof. exact hvcc_cost. Qed.
+
+(** hvcC and hev1 called where the readers call them (at [p], right after a header that announced
+    [size], inside data shorter than 2^62): the requests are linear in the announced size, with the
+    255 * 32 bytes of the unchecked [num_of_arrays] as the constant.  [mrun c d p] is the metered
+    run of [c] on data [d] from position [p]: result, final position, cost. *)
+Theorem C08_hvcc_linear : forall d m p size,
+  bytes_ok d = true -> lenN d < 2 ^ 62 -> 8 <= p -> p <= lenN d -> size < 2 ^ 62 ->
+  let '(r, _, k) := mrun (dec_hvcc m size) d p in
+  r <> OutOfFuel /\ cwork k <= 3 * size + 1600 /\ c_amax k <= 17 * size + 8160 /\ c_asum k <= 17 * size + 8160.
+Proof.
+  intros d m p size Hd Hl H8 Hp Hs. pose proof (hvcc_spec d Hd Hl m p size H8 Hp Hs) as H.
+  pose proof (mrun_amax_le_asum (dec_hvcc m size) d p) as Hm.
+  unfold ispec in H. destruct (mrun (dec_hvcc m size) d p) as [[r p'] k]. cbn [snd] in Hm.
+  destruct H as (H1 & H2 & H3 & _). repeat split; auto. now apply (N.le_trans _ _ _ Hm).
+Qed.
+Theorem C08_hev1_linear : forall d m p size,
+  bytes_ok d = true -> lenN d < 2 ^ 62 -> 8 <= p -> p <= lenN d -> size < 2 ^ 62 ->
+  let '(r, _, k) := mrun (dec_hev1 m size) d p in
+  r <> OutOfFuel /\ cwork k <= 3 * size + 1800 /\ c_amax k <= 17 * size + 8160 /\ c_asum k <= 17 * size + 8160.
+Proof.
+  intros d m p size Hd Hl H8 Hp Hs. pose proof (hev1_spec d Hd Hl m p size H8 Hp Hs) as H.
+  pose proof (mrun_amax_le_asum (dec_hev1 m size) d p) as Hm.
+  unfold ispec in H. destruct (mrun (dec_hev1 m size) d p) as [[r p'] k]. cbn [snd] in Hm.
+  destruct H as (H1 & H2 & H3 & _). repeat split; auto. now apply (N.le_trans _ _ _ Hm).
+Qed.
+Print Assumptions C08_hvcc_linear.
+Print Assumptions C08_hev1_linear.
 
 (** what a [bnd] gives for the single largest request *)
 Theorem C08_single_request : forall {A} (c : prog A) W Al d p,
